@@ -368,7 +368,7 @@ func TestC12(t *testing.T) {
 			{"time/2-htlc", "time", 2, with(uni3, 3), cfgAll, []bool{false, true}, false},
 			{"disp/2-htlc", "disp", 2, with(full1, 2), cfgT, []bool{false}, false},
 			{"disp/2-htlc/startup-feed", "disp", 2, with(full1, 2), cfg1, []bool{true}, false},
-			{"disp/3-htlc", "disp", 3, with(red, 1), cfgQ, []bool{false}, true},
+			{"disp/3-htlc", "disp", 3, with(red, 2), cfg1, []bool{false}, true},
 			{"time/3-htlc", "time", 3, with(uniOut, 3), cfgAll, []bool{false}, false},
 			{"disp/4-htlc", "disp", 4, with(red4, 1), cfg1, []bool{false}, true},
 		}
